@@ -109,8 +109,14 @@ func (it *Interp) callBuiltin(fr *frame, b *ssa.Builtin, args []Value, c *ssa.Ca
 		}
 		return nil
 	case "panic":
+		if it.spec > 0 {
+			panic(specFail{"panic"})
+		}
 		panic(&goPanic{val: args[0], msg: it.describePanic(args[0]), pos: it.stackString(fr)})
 	case "recover":
+		if it.spec > 0 {
+			panic(specFail{"recover"})
+		}
 		// must be called directly by a deferred function of a panicking frame
 		if fr != nil && fr.caller != nil && fr.caller.panicking {
 			fr.caller.panicking = false
